@@ -32,7 +32,7 @@ pub struct Cfg {
 
 /// Scripted round shapes: 0 = target found at 2 with probes for ttl 3 and 4 still in flight,
 /// 1 = four answering hops, 2 = another ECMP branch (new flow) of length 3, 3 = nothing answered
-/// (three probes in flight, path length 0).
+/// (three probes in flight, path length 0), 4 / 5 = a round whose first slot is Failed / Skipped.
 fn script_round(kind: u8, i: usize) -> RoundRec {
     use stateexp::{Out, Shape};
     let c = |sel: u8| Out::C(2_000_000 + 1000 * i as u64, sel, None, None);
@@ -40,6 +40,9 @@ fn script_round(kind: u8, i: usize) -> RoundRec {
         0 => Shape { first_ttl: 1, outs: vec![c(1), c(1), Out::A, Out::A], largest_ttl: Some(2) },
         1 => Shape { first_ttl: 1, outs: vec![c(1), c(1), c(1), c(1)], largest_ttl: None },
         3 => Shape { first_ttl: 1, outs: vec![Out::A, Out::A, Out::A], largest_ttl: Some(0) },
+        // the first send of the round failed / found its port taken (slot 0 Failed / Skipped)
+        4 => Shape { first_ttl: 1, outs: vec![Out::F, c(1), c(1)], largest_ttl: None },
+        5 => Shape { first_ttl: 1, outs: vec![Out::S, c(1), c(1), c(1)], largest_ttl: None },
         _ => Shape { first_ttl: 1, outs: vec![c(1), c(2), c(1)], largest_ttl: None },
     };
     stateexp::build(&shape, i, (i as u16) * 16)
@@ -311,6 +314,7 @@ pub fn run(args: &Args) -> i32 {
             // the state's boundary shapes: flow tracking off, rounds in which nothing answered
             Cfg { rounds: 2, readers: vec![2], clears: 1, fatal_at_select: None, script: vec![3, 3], max_flows: 0 },
             Cfg { rounds: 3, readers: vec![2], clears: 1, fatal_at_select: None, script: vec![3, 1, 3], max_flows: 1 },
+            Cfg { rounds: 3, readers: vec![2], clears: 1, fatal_at_select: None, script: vec![1, 4, 5], max_flows: 4 },
         ],
         Tier::Thorough => vec![
             Cfg { rounds: 2, readers: vec![2], clears: 1, fatal_at_select: None, script: vec![], max_flows: 4 },
@@ -327,6 +331,7 @@ pub fn run(args: &Args) -> i32 {
             Cfg { rounds: 3, readers: vec![3], clears: 2, fatal_at_select: None, script: vec![3, 3, 1], max_flows: 0 },
             Cfg { rounds: 3, readers: vec![2], clears: 1, fatal_at_select: None, script: vec![3, 1, 3], max_flows: 1 },
             Cfg { rounds: 3, readers: vec![2], clears: 1, fatal_at_select: None, script: vec![], max_flows: 0 },
+            Cfg { rounds: 4, readers: vec![2], clears: 1, fatal_at_select: None, script: vec![1, 4, 5, 1], max_flows: 4 },
         ],
     };
     let findings: Mutex<BTreeMap<String, Finding>> = Mutex::new(BTreeMap::new());
